@@ -15,6 +15,7 @@ def parseVal (s : String) : Option Val :=
   else if s.startsWith "s" then (s.drop 1).toString.toNat?.map .str
   else if s.startsWith "h" then (s.drop 1).toString.toInt?.map .flt     -- h<2·x>: the float x (an exact half-integer)
   else if s = "n" then some .null
+  else if s.startsWith "q" then (s.drop 1).toString.toNat?.map (fun k => Val.str (5000 + k))   -- q<k>: C06.oddStrings[k]
   else if s.startsWith "w" then                                           -- w<letters a..c>: the string <letters>
     ((s.drop 1).toString.toList.foldlM (fun (n : Nat) c =>
       if c = 'a' then some (4 * n + 1) else if c = 'b' then some (4 * n + 2) else if c = 'c' then some (4 * n + 3) else none) 0).map
@@ -24,7 +25,7 @@ def parseVal (s : String) : Option Val :=
 def showVal : Val → String
   | .int i => s!"i{i}"
   | .bool b => if b then "b1" else "b0"
-  | .str s => if s ≥ 10000 then "w" ++ String.ofList (strChars s) else s!"s{s}"
+  | .str s => if s ≥ 10000 then "w" ++ String.ofList (strChars s) else if s ≥ 5000 then s!"q{s - 5000}" else s!"s{s}"
   | .flt t => s!"h{t}"
   | .null => "n"
 
@@ -90,7 +91,7 @@ def parseAlpha (s : String) : Option Node :=
       else if rhs.startsWith "[" then                                     -- [v|v|…]: array literal
         let inner := ((rhs.drop 1).toString.dropEnd 1).toString
         if inner = "" then some (Rhs.arr []) else ((inner.splitOn "|").mapM parseVal).map Rhs.arr
-      else (parseVal rhs).map Rhs.lit)
+      else (parseVal rhs).map (fun v => Rhs.lit (classifyLit v)))        -- the node carries TEXT: `parse_value_string` decides the type
     pure (.alpha ty f op rhs)
   | _ => none
 
